@@ -12,6 +12,7 @@ import MW.Lemmas.RemoveFrame
 import MW.Lemmas.RemoveProgress
 import MW.Lemmas.Layout
 import MW.Model.Import
+import MW.Lemmas.TxmgrCodecRec
 namespace MW.Props.C08
 open MW MW.Model.Ledger MW.Model.Remove MW.Lemmas.RemoveScan MW.Lemmas.RemoveStep MW.Lemmas.RemoveFrame
   MW.Lemmas.RemoveProgress
@@ -611,5 +612,19 @@ example : (match run 1 ctx "W2" ["A2"] 3 st with | .done s' => some (s'.credits.
 example : (removeWallet 0 ["W1", "W2"] true st "W1").1 = .ok := by decide
 example : (removeWallet 0 ["W1"] true { st with status := [("W1", ⟨some 5, false⟩)] } "W1").1 = .unready := by decide
 example : (removeWallet 0 ["W1", "W2"] false st "W1").1 = .badPass ∧ (removeWallet 3 ["W1", "W2"] true st "W1").1 = .busy := by decide
+
+-- ------------------------------------------------------------------ byte level (Round 4): id-prefix scans on real byte keys
+section Codec
+open MW.Model.TxmgrCodec MW.TxmgrCodec MW.Gen.Codec
+
+/-- RemoveUnspentByWalletId: deleteByPrefix([]byte(walletId)) hits exactly the unspent keys of that wallet -/
+theorem codec_scan_unspent_by_wallet (w : Bytes) (u : UnspentKeyB) (hw : w.length = 42) (hu : u.WF = true) :
+    w.isPrefixOf (canonicalUnspentKey u) = true ↔ u.wallet = w := scan_unspent_by_wallet w u hw hu
+/-- RemoveAddressByWalletId / fetchAddressesByWalletId -/
+theorem codec_scan_addresses_by_wallet (w : Bytes) (a : AddrKeyB) (hw : w.length = 42) (ha : a.WF = true) :
+    w.isPrefixOf (encode wKeyAddressRecord a.vals) = true ↔ a.wallet = w := scan_addresses_by_wallet w a hw ha
+example : (⟨List.replicate 42 0xff, List.replicate 32 0xff, 0⟩ : UnspentKeyB).WF = true ∧
+    (⟨List.replicate 42 0xff, 1, [0x6d, 0x73]⟩ : AddrKeyB).WF = true := by decide
+end Codec
 
 end MW.Props.C08
